@@ -203,9 +203,7 @@ crate::scenarios! {
     p_two_writers_2_9_e => p_two_writers_k::<2, 9, 1>();
     p_two_writers_3_9_s => p_two_writers_k::<3, 9, 0>();
     p_two_writers_3_9_e => p_two_writers_k::<3, 9, 1>();
-    p_two_writers_4_4_s => p_two_writers_k::<4, 4, 0>();
     p_two_writers_4_4_e => p_two_writers_k::<4, 4, 1>();
-    p_two_writers_3_4_s => p_two_writers_k::<3, 4, 0>();
     p_two_writers_3_4_e => p_two_writers_k::<3, 4, 1>();
     p_seq_ids_all => p_seq_ids();
 }
